@@ -136,10 +136,14 @@ Units boundary_template(jm::Entropy &e, std::string *ops) {
             if (ops) *ops += "boundary:inline-if-length=" + std::to_string(L) + ";";
             break;
         }
-        case 4: { // nesting depth around 255
-            unsigned d = 250 + e.below(10);
-            t          = rep("<if case=\"1\">", d) + "<loop value=\"v\">{var:v}</loop>" + rep("</if>", d);
-            if (ops) *ops += "boundary:if-depth=" + std::to_string(d) + ";";
+        case 4: { // nesting depth around 255 / 256 (8-bit Level): loops that would share a slot, the inner one sorted (iterates a
+                  // temporary copy), the outer value used again after the inner loop ended
+            unsigned d = 250 + e.below(12);
+            unsigned g = e.chance(50) ? 0 : 250 + e.below(12); // open tags between the two loops
+            const char *attr = (const char *[]){" sort=\"ascend\"", " sort=\"descend\"", " group=\"g\"", ""}[e.below(4)];
+            t = rep("<if case=\"1\">", d) + "<loop value=\"a\">[{var:a}" + rep("<if case=\"1\">", g) + "<loop value=\"b\"" + attr + ">{var:b}{var:a}</loop>" +
+                rep("</if>", g) + "{var:a}]</loop>" + rep("</if>", d);
+            if (ops) *ops += "boundary:nesting=" + std::to_string(d) + "+" + std::to_string(g) + ";";
             break;
         }
         case 5: { // more than ten sub tags in a super variable
@@ -154,7 +158,19 @@ Units boundary_template(jm::Entropy &e, std::string *ops) {
             if (e.chance(40)) {
                 t = "{math:{var:" + std::string(names[e.below(16)]) + "}+1}";
             }
-            if (ops) *ops += "boundary:bracket-name;";
+            if (e.chance(35)) {
+                // an attribute value may be quoted by any character: operator characters as quotes put an operator right at
+                // the end of the expression, and expressions that end in an operator
+                static const char *qs[] = {"=", "&", "|", "<", ">", "!", "+", "-", "*", "^", "%", "(", ")"};
+                static const char *ex[] = {"1", "=1", "1=", "1&", "2>", "1|", "{var:a}<", "3!", "1+", "(1", "1)", "1 &", "5 >", "=", ""};
+                std::string         q    = qs[e.below(13)];
+                switch (e.below(3)) {
+                    case 0: t = "<if case=" + q + ex[e.below(15)] + q + ">" + q + q + ">x</if>"; break;
+                    case 1: t = "{if case=" + q + ex[e.below(15)] + q + " true=" + q + "T" + q + "}"; break;
+                    default: t = "{math:" + std::string(ex[e.below(15)]) + "}"; break;
+                }
+            }
+            if (ops) *ops += "boundary:bracket-name-or-operator-quote;";
         }
     }
     Units u;
